@@ -428,14 +428,16 @@ def run_pool(fn, args, workers=None, task_timeout=600, wall_budget=None, on_resu
     results = [None] * len(args)
     t0 = time.time()
 
+    stop = [False]
+
     def finish(i, st, pl):
         results[i] = (args[i], st, pl)
-        if on_result:
-            on_result(results[i])
+        if on_result and on_result(results[i]):
+            stop[0] = True  # the caller has seen enough (sensitivity runs only): nothing more is dispatched
 
     if workers <= 1 or os.environ.get("VERIF_INPROC") == "1":
         for i, a in enumerate(args):
-            if wall_budget and time.time() - t0 > wall_budget:
+            if stop[0] or (wall_budget and time.time() - t0 > wall_budget):
                 finish(i, "skipped", None)
                 continue
             try:
@@ -453,7 +455,7 @@ def run_pool(fn, args, workers=None, task_timeout=600, wall_budget=None, on_resu
             # dispatch
             for w in pool:
                 if w.task is None and nxt < len(args):
-                    if wall_budget and time.time() - t0 > wall_budget:
+                    if stop[0] or (wall_budget and time.time() - t0 > wall_budget):
                         while nxt < len(args):
                             finish(nxt, "skipped", None)
                             nxt += 1
